@@ -6,6 +6,7 @@ package main
 import (
 	"fmt"
 	"sort"
+	"time"
 
 	"github.com/6tail/lunar-go/calendar"
 )
@@ -70,6 +71,38 @@ func c07Year(w *W, y int) {
 							w.Viol(fmt.Sprintf("C07:NewSolar:time:%04d-%02d-%02d", y, m, d), fmt.Sprintf("NewSolar(%d,%d,%d,%d,%d,%d) accepted=%v, exists=%v", y, m, d, h, mi, s, !p, want), []int{y, m, d, h, mi, s})
 						}
 					}
+				}
+			}
+		}
+	}
+	// ---- time.Time entry points: same acceptance and same fields as the integer constructors
+	for m := 1; m <= 12; m++ {
+		for _, d := range []int{1, 4, 5, 10, 14, 15, 28, 29, 30, 31} {
+			t := time.Date(y, time.Month(m), d, 23, 59, 59, 0, time.UTC)
+			if t.Year() != y || int(t.Month()) != m || t.Day() != d {
+				continue // time.Time normalised the date (it does not exist in the proleptic Gregorian calendar)
+			}
+			want := r1Valid(y, m, d)
+			var s *calendar.Solar
+			_, p := try(func() { s = calendar.NewSolarFromDate(t) })
+			w.R.Evals++
+			if want != !p || (!p && !solarEq(s, y, m, d, 23, 59, 59)) {
+				w.Viol(fmt.Sprintf("C07:NewSolarFromDate:%04d-%02d-%02d", y, m, d), fmt.Sprintf("NewSolarFromDate(%s) accepted=%v, date exists=%v", t.Format("2006-01-02 15:04:05"), !p, want), []int{y, m, d})
+			}
+			if !p {
+				var l *calendar.Lunar
+				if msg, pl := try(func() { l = calendar.NewLunarFromDate(t) }); pl {
+					w.Viol(fmt.Sprintf("C07:NewLunarFromDate:panic:%04d-%02d-%02d", y, m, d), msg, []int{y, m, d})
+				} else if fieldDigest(l) != fieldDigest(s.GetLunar()) {
+					w.Viol(fmt.Sprintf("C07:NewLunarFromDate:%04d-%02d-%02d", y, m, d), "NewLunarFromDate differs from NewSolarFromDate(...).GetLunar()", []int{y, m, d})
+				}
+				wk := calendar.NewSolarWeekFromDate(t, 1)
+				sm := calendar.NewSolarMonthFromDate(t)
+				ss := calendar.NewSolarSeasonFromDate(t)
+				sh := calendar.NewSolarHalfYearFromDate(t)
+				sy := calendar.NewSolarYearFromDate(t)
+				if wk.GetYear() != y || wk.GetMonth() != m || wk.GetDay() != d || sm.GetYear() != y || sm.GetMonth() != m || ss.GetYear() != y || ss.GetMonth() != m || sh.GetYear() != y || sh.GetMonth() != m || sy.GetYear() != y {
+					w.Viol(fmt.Sprintf("C07:FromDate-units:%04d-%02d-%02d", y, m, d), "a ...FromDate constructor of week/month/season/half-year/year carries other fields than the time.Time", []int{y, m, d})
 				}
 			}
 		}
